@@ -280,6 +280,7 @@ pub fn programs(thorough: bool, rng: &mut Rng) -> Vec<(Program, usize, usize)> {
     v.push((p("pipe-2p-try-send", (1, 0, 2), vec![vec![Op::TrySend(1)], vec![s1(1)]], vec![], vec![]), 1000, 0));
     v.push((p("pipe-2p-overflow", (1, 0, 2), vec![vec![s1(1), s1(2), Op::DropSrc], vec![Op::TrySend(1), s1(2), Op::DropSrc]], vec![Op::Recv, Op::Recv, Op::Recv], vec![]), 0, 600 * k));
     v.push((p("pipe-3p-cap3", (3, 0, 3), vec![vec![Op::Send(vec![1, 2])], vec![Op::TrySend(1), Op::DropSrc], vec![s1(1), s1(2)]], vec![Op::Recv, Op::Recv], vec![]), 0, 300 * k));
+    v.push((p("pipe-wrap-cap3", (3, usize::MAX - 2, 2), vec![vec![Op::Send(vec![1, 2, 3])], vec![s1(1), Op::TrySend(2)]], vec![Op::Recv, Op::Recv, Op::Recv], vec![]), 0, 150 * k));
     v.push((p("pipe-recvdrop", (2, 0, 1), vec![vec![s1(1), s1(2), Op::TrySend(3)]], vec![Op::Recv, Op::DropRecv], vec![]), 0, 300 * k));
     // lock probing: a thread in front of a held lock is really granted the step; it must not come back
     v.push((p("probe-2p-send-send", (2, 0, 2), vec![vec![s1(1)], vec![s1(1)]], vec![], vec![]), 3000, 0));
